@@ -81,7 +81,20 @@ func NewStaticStructDatasource[T any](structStream stream.Stream[T]) (*StaticStr
 		// Extract data fields
 		data := make([]any, len(dataFieldIndices))
 		for i, fieldIdx := range dataFieldIndices {
-			data[i] = val.Field(fieldIdx).Interface()
+			// A field of a named type (e.g. `type Celsius float64`) has an accepted kind, but its boxed value would carry
+			// the named type: hand out the Go type of the declared data type (int64, float64, string, bool)
+			switch fieldVal := val.Field(fieldIdx); fieldVal.Kind() {
+			case reflect.Bool:
+				data[i] = fieldVal.Bool()
+			case reflect.Int64:
+				data[i] = fieldVal.Int()
+			case reflect.Float64:
+				data[i] = fieldVal.Float()
+			case reflect.String:
+				data[i] = fieldVal.String()
+			default:
+				data[i] = fieldVal.Interface()
+			}
 		}
 
 		return timeseries.TsRecord[[]any]{
